@@ -14,5 +14,6 @@ int main(int argc, char** argv)
   std::vector<Target> tg;
   tg.push_back({"csr", DISPATCH(1, 20, -1), 192, 16});
   tg.push_back({"csr_ilu", DISPATCH(1, 20, c08::K_ILU), 192, 16});
+  tg.push_back({"csr_big", DISPATCH(1, 40, -1), 512, 48});   // thorough tier only
   return main_impl(argc, argv, tg);
 }
